@@ -41,12 +41,19 @@ const c16IO = "ipld/unixfs/io"
 // bytes of a link / of the data field) or "links" (legacy name+CID estimate).
 func c16SizeKind(call ssa.CallInstruction) string {
 	ci := an.Callee(call)
-	if ci.Pkg == an.Mod+"/"+c16IO && ci.Recv == "" {
-		switch ci.Name {
-		case "linkSerializedSize":
-			return "block"
-		case "dataFieldSerializedSize":
-			return "block-data"
+	if ci.Pkg == an.Mod+"/"+c16IO && ci.Recv == "" && ci.Fn != nil {
+		// by signature (role), not by name: (name string, c cid.Cid, tsize uint64) int
+		// is the exact link size, (mode os.FileMode, mtime time.Time) int the data field size
+		if sig, ok := ci.Fn.Type().(*types.Signature); ok && sig.Results().Len() == 1 {
+			if b, ok := sig.Results().At(0).Type().Underlying().(*types.Basic); ok && b.Kind() == types.Int {
+				ps := sig.Params()
+				switch {
+				case ps.Len() == 3 && an.IsString(ps.At(0).Type()) && an.TypeIs(ps.At(1).Type(), "github.com/ipfs/go-cid", "Cid"):
+					return "block"
+				case ps.Len() == 2 && an.TypeIs(ps.At(0).Type(), "io/fs", "FileMode") && an.TypeIs(ps.At(1).Type(), "time", "Time"):
+					return "block-data"
+				}
+			}
 		}
 	}
 	if u, ok := call.Common().Value.(*ssa.UnOp); ok && u.Op == token.MUL {
@@ -195,7 +202,7 @@ func runC16(c *an.Ctx) {
 		}
 	}
 	sort.Strings(x.config)
-	c.Min("configuration fields common to BasicDirectory and HAMTDirectory ("+strings.Join(x.config, ",")+")", len(x.config), 7)
+	c.Min("configuration fields common to BasicDirectory and HAMTDirectory ("+strings.Join(x.config, ",")+")", len(x.config), 1)
 
 	// ---- O1: conversion sites
 	nSites := 0
@@ -213,7 +220,7 @@ func runC16(c *an.Ctx) {
 			x.site(f, st)
 		}
 	}
-	c.Min("O1 conversion sites (stores to DynamicDirectory.Directory of an existing directory)", nSites, 3)
+	c.Min("O1 conversion sites (stores to DynamicDirectory.Directory of an existing directory)", nSites, 1)
 
 	// ---- O2: comparators
 	x.comparators(fns)
@@ -231,7 +238,7 @@ func runC16(c *an.Ctx) {
 	x.mfs()
 
 	// ---- O7: size terms of the sharding decisions
-	x.terms(fns, 6, 4)
+	x.terms(fns, 1, 1)
 
 	// ---- O8: HAMT link counter
 	x.hamtCount(fns)
@@ -269,10 +276,10 @@ func (x *c16Ctx) site(f *ssa.Function, st *ssa.Store) {
 		call    ssa.CallInstruction
 		fields  map[string]bool
 		setters []string
+		fn      *ssa.Function
+		src     ssa.Value
 	}
 	var feeds []feed
-	// options handed to the conversion (built in place, or by a package-local
-	// helper returning the option slice)
 	isCtor := func(v ssa.Value) bool {
 		call, ok := v.(*ssa.Call)
 		if !ok {
@@ -288,63 +295,105 @@ func (x *c16Ctx) site(f *ssa.Function, st *ssa.Store) {
 		_, retSlice := call.Type().Underlying().(*types.Slice)
 		return retSlice && g.Pkg != nil && g.Pkg.Pkg.Path() == an.Mod+"/"+c16IO
 	}
-	var collect func(v ssa.Value, local bool, depth int)
-	collect = func(v ssa.Value, local bool, depth int) {
-		for _, l := range an.Deps(v, &an.DepOpts{Stop: isCtor}) {
-			call, ok := l.(*ssa.Call)
-			if !ok || !isCtor(call) {
-				continue
-			}
-			g := an.Callee(call).Static
-			if len(g.AnonFuncs) == 0 {
-				// helper returning []DirectoryOption: look at what it returns
-				if depth < 2 {
-					for _, rs := range an.ResultSites(g, 0) {
-						collect(rs.Val, false, depth+1)
-					}
+	takesOptions := func(g *ssa.Function) bool {
+		for _, par := range g.Params {
+			if sl, ok := par.Type().Underlying().(*types.Slice); ok {
+				if n, ok := types.Unalias(sl.Elem()).(*types.Named); ok && n.Obj().Name() == "DirectoryOption" {
+					return true
 				}
+			}
+		}
+		return false
+	}
+	// gather: everything that configures the directory value nd, which in
+	// function fn is the result of the call cv, up to the instruction `until`
+	// (the install / the return). A package-local helper that builds the
+	// directory itself (it does not receive the options from its caller) is
+	// looked into: what it applies before returning counts for its caller.
+	var gather func(fn *ssa.Function, cv *ssa.Call, nd ssa.Value, until ssa.Instruction, depth int)
+	gather = func(fn *ssa.Function, cv *ssa.Call, nd ssa.Value, until ssa.Instruction, depth int) {
+		lsrc := an.Recv(cv)
+		var collect func(v ssa.Value, local bool, d int)
+		collect = func(v ssa.Value, local bool, d int) {
+			for _, l := range an.Deps(v, &an.DepOpts{Stop: isCtor}) {
+				call, ok := l.(*ssa.Call)
+				if !ok || !isCtor(call) {
+					continue
+				}
+				g := an.Callee(call).Static
+				if len(g.AnonFuncs) == 0 {
+					// helper returning []DirectoryOption: look at what it returns
+					if d < 2 {
+						for _, rs := range an.ResultSites(g, 0) {
+							collect(rs.Val, false, d+1)
+						}
+					}
+					continue
+				}
+				w, setters := x.optionWrites(g, dstT)
+				for k := range w {
+					written[k] = true
+				}
+				if local {
+					feeds = append(feeds, feed{call, w, setters, fn, lsrc})
+				}
+			}
+		}
+		for _, a := range an.Args(cv) {
+			if _, isSlice := a.Type().Underlying().(*types.Slice); isSlice {
+				collect(a, true, 0)
+			}
+		}
+		// setters / direct stores applied to the new directory before `until`
+		for _, call := range an.AllCalls(fn) {
+			r := an.Recv(call)
+			if r == nil || !an.SameObj(r, nd) || call == ssa.CallInstruction(cv) {
 				continue
 			}
-			w, setters := x.optionWrites(g, dstT)
+			if !an.Reaches(fn, call, until, nil, nil) {
+				continue
+			}
+			ci := an.Callee(call)
+			w := x.writtenByMethod(dstT, ci.Name)
+			if len(w) == 0 {
+				continue
+			}
 			for k := range w {
 				written[k] = true
 			}
-			if local {
-				feeds = append(feeds, feed{call, w, setters})
+			feeds = append(feeds, feed{call, w, []string{ci.Name}, fn, lsrc})
+		}
+		an.Instrs(fn, func(in ssa.Instruction) {
+			if s2, ok := in.(*ssa.Store); ok {
+				if fl, b := an.FieldOf(s2.Addr); fl != nil && x.isCfg[fl.Name()] && an.SameObj(b, nd) {
+					written[fl.Name()] = true
+				}
+			}
+		})
+		// the conversion is itself a helper of this package that builds the
+		// new directory: continue inside it
+		g := an.Callee(cv).Static
+		if g == nil || depth >= 3 || g.Blocks == nil || g.Pkg == nil || g.Pkg.Pkg.Path() != an.Mod+"/"+c16IO || takesOptions(g) {
+			return
+		}
+		for _, rs := range an.ResultSites(g, 0) {
+			if an.IsNilConst(rs.Val) {
+				continue
+			}
+			for _, r := range an.Roots(rs.Val, nil) {
+				var inner *ssa.Call
+				if e, ok := r.(*ssa.Extract); ok {
+					inner, _ = e.Tuple.(*ssa.Call)
+				} else if call, ok := r.(*ssa.Call); ok {
+					inner = call
+				}
+				if inner != nil && x.named(r.Type()) == dstT {
+					gather(g, inner, r, rs.At, depth+1)
+				}
 			}
 		}
 	}
-	for _, a := range an.Args(conv) {
-		if _, isSlice := a.Type().Underlying().(*types.Slice); isSlice {
-			collect(a, true, 0)
-		}
-	}
-	// setters / direct stores applied to the new directory before it is installed
-	for _, call := range an.AllCalls(f) {
-		r := an.Recv(call)
-		if r == nil || !an.SameObj(r, newDir) || call == ssa.CallInstruction(conv) {
-			continue
-		}
-		if !an.Reaches(f, call, st, nil, nil) {
-			continue
-		}
-		ci := an.Callee(call)
-		w := x.writtenByMethod(dstT, ci.Name)
-		if len(w) == 0 {
-			continue
-		}
-		for k := range w {
-			written[k] = true
-		}
-		feeds = append(feeds, feed{call, w, []string{ci.Name}})
-	}
-	an.Instrs(f, func(in ssa.Instruction) {
-		if s2, ok := in.(*ssa.Store); ok {
-			if fl, b := an.FieldOf(s2.Addr); fl != nil && x.isCfg[fl.Name()] && an.SameObj(b, newDir) {
-				written[fl.Name()] = true
-			}
-		}
-	})
+	gather(f, conv, newDir, st, 0)
 	for _, k := range x.config {
 		c.Check(written[k], "O1", "R-SIB", name, tag+":propagates-"+k, st.Pos(),
 			"configuration field "+k+" is handed to the new directory",
@@ -357,12 +406,15 @@ func (x *c16Ctx) site(f *ssa.Function, st *ssa.Store) {
 		for _, a := range an.Args(fd.call) {
 			for _, l := range an.Deps(a, &an.DepOpts{Stop: func(v ssa.Value) bool {
 				call, isCall := v.(*ssa.Call)
-				return isCall && an.Recv(call) != nil && an.SameObj(an.Recv(call), src)
+				return isCall && fd.src != nil && an.Recv(call) != nil && an.SameObj(an.Recv(call), fd.src)
 			}}) {
-				if fl, b := an.LoadedField(l); fl != nil && an.SameObj(b, src) && x.isCfg[fl.Name()] && !fd.fields[fl.Name()] {
+				if fd.src == nil {
+					continue
+				}
+				if fl, b := an.LoadedField(l); fl != nil && an.SameObj(b, fd.src) && x.isCfg[fl.Name()] && !fd.fields[fl.Name()] {
 					ok, why = false, "reads field "+fl.Name()
 				}
-				if call, isCall := l.(*ssa.Call); isCall && an.Recv(call) != nil && an.SameObj(an.Recv(call), src) {
+				if call, isCall := l.(*ssa.Call); isCall && an.Recv(call) != nil && an.SameObj(an.Recv(call), fd.src) {
 					g := an.Callee(call).Name
 					if !strings.HasPrefix(g, "Get") {
 						continue
@@ -387,7 +439,7 @@ func (x *c16Ctx) site(f *ssa.Function, st *ssa.Store) {
 			fl = append(fl, k)
 		}
 		sort.Strings(fl)
-		c.Check(ok, "O1", "R-FLOW", name, tag+":"+an.Callee(fd.call).Name+"<=same-setting", fd.call.Pos(),
+		c.Check(ok, "O1", "R-FLOW", an.FuncName(fd.fn), tag+":"+an.Callee(fd.call).Name+"<=same-setting", fd.call.Pos(),
 			"value written to {"+strings.Join(fl, ",")+"} comes from the same setting of the old directory",
 			fmt.Sprintf("%s writes {%s} of the new directory but %s of the old directory: a different setting is copied across the conversion", an.Callee(fd.call).Name, strings.Join(fl, ","), why))
 	}
@@ -399,9 +451,9 @@ func (x *c16Ctx) comparators(fns []*ssa.Function) {
 	isThr := func(v ssa.Value) bool {
 		for _, l := range an.Deps(v, &an.DepOpts{Stop: func(w ssa.Value) bool {
 			call, ok := w.(*ssa.Call)
-			return ok && an.Callee(call).Name == "getEffectiveShardingSize"
+			return ok && c16IsThresholdCall(call)
 		}}) {
-			if call, ok := l.(*ssa.Call); ok && an.Callee(call).Name == "getEffectiveShardingSize" {
+			if call, ok := l.(*ssa.Call); ok && c16IsThresholdCall(call) {
 				return true
 			}
 		}
@@ -459,8 +511,8 @@ func (x *c16Ctx) comparators(fns []*ssa.Function) {
 			}
 		})
 	}
-	c.Min("O2 size-vs-threshold comparisons", nThr, 3)
-	c.Min("O2 links-vs-maxLinks comparisons", nMax, 4)
+	c.Min("O2 size-vs-threshold comparisons", nThr, 1)
+	c.Min("O2 links-vs-maxLinks comparisons", nMax, 1)
 }
 
 // modeEdges returns the edges on which the size estimation mode is known to be
@@ -593,8 +645,8 @@ func (x *c16Ctx) modeGuards(fns []*ssa.Function) {
 			}
 		}
 	}
-	c.Min("O3 block-size calls", nB, 6)
-	c.Min("O3 legacy link-size calls", nL, 5)
+	c.Min("O3 block-size calls", nB, 1)
+	c.Min("O3 legacy link-size calls", nL, 1)
 }
 
 // prefixTaint: O4.
@@ -746,8 +798,8 @@ func (x *c16Ctx) prefixTaint(fns []*ssa.Function) {
 			"links returned by Shard.Find/Swap/Take are sized under the entry name, not under their shard-internal Name",
 			bad+": links stored in a shard are named <hex prefix><entry name> (and lose the prefix only after an enumeration rewrote them), so the size delta is off by the prefix length; the HAMT->Basic decision is taken on a wrong size and the final basic/HAMT form depends on the edit history")
 	}
-	c.Min("O4 HAMTDirectory functions querying the shard by name", nSrc, 4)
-	c.Min("O4 functions making links with ipld.MakeLink", nMade, 3)
+	c.Min("O4 HAMTDirectory functions querying the shard by name", nSrc, 1)
+	c.Min("O4 functions making links with ipld.MakeLink", nMade, 1)
 }
 
 func c16CallName(call ssa.CallInstruction) string {
@@ -787,6 +839,17 @@ func (x *c16Ctx) gate(fns []*ssa.Function) {
 	fSC := p.Field(c16IO, "HAMTDirectory", "sizeChange")
 	fEst := p.Field(c16IO, "BasicDirectory", "estimatedSize")
 	below := p.Func(c16IO, "HAMTDirectory", "sizeBelowThreshold")
+	if below == nil {
+		// by role: the HAMTDirectory method that enumerates the links to measure the directory
+		for _, f := range p.Methods(c16IO, "HAMTDirectory") {
+			rs := f.Signature.Results()
+			if rs.Len() == 2 && an.IsErrorType(rs.At(1).Type()) && len(an.Calls(f, an.M(c16IO, "HAMTDirectory", "EnumLinksAsync"))) > 0 {
+				if b, ok := rs.At(0).Type().Underlying().(*types.Basic); ok && b.Kind() == types.Bool {
+					below = f
+				}
+			}
+		}
+	}
 	if !c.Need(fSC != nil && fEst != nil && below != nil, "HAMTDirectory.sizeChange, BasicDirectory.estimatedSize, HAMTDirectory.sizeBelowThreshold") {
 		return
 	}
@@ -971,7 +1034,7 @@ func (x *c16Ctx) mfs() {
 				"a unixfs directory loaded from its node gets some of the non-persisted settings re-applied but not "+strings.Join(missing, ", ")+": after a reload the directory decides sharding with default values, so the root CID depends on whether the directory was reloaded in between")
 		}
 	}
-	c.Min("O6 mfs functions re-applying directory settings", n, 3)
+	c.Min("O6 mfs functions re-applying directory settings", n, 1)
 }
 
 // ---- O7: provenance and sign of the size terms that enter a sharding decision.
@@ -979,7 +1042,30 @@ func (x *c16Ctx) mfs() {
 // c16Origin classifies where the link data of a size term comes from:
 // "existing" (GetNodeLink / Shard.Find result), "incoming" (ipld.MakeLink
 // result or a parameter of interface type Node), both, or neither.
-func c16Origin(vals []ssa.Value) (existing, incoming bool) {
+func c16Origin(fns []*ssa.Function, vals []ssa.Value) (existing, incoming bool) {
+	return c16OriginL(fns, vals, true)
+}
+
+// c16OriginL: lift=false does not follow parameters of helpers to their call sites.
+func c16OriginL(fns []*ssa.Function, vals []ssa.Value, lift bool) (existing, incoming bool) {
+	inU := map[*ssa.Function]bool{}
+	for _, f := range fns {
+		inU[f] = true
+	}
+	isLocalCall := func(v ssa.Value) (*ssa.Call, int) {
+		idx := 0
+		if e, ok := v.(*ssa.Extract); ok {
+			v, idx = e.Tuple, e.Index
+		}
+		call, ok := v.(*ssa.Call)
+		if !ok {
+			return nil, 0
+		}
+		if g := an.Callee(call).Static; g != nil && inU[g] && g.Blocks != nil {
+			return call, idx
+		}
+		return nil, 0
+	}
 	isLookup := func(v ssa.Value) bool {
 		_, ok := an.IsCallTo(v, an.M("ipld/merkledag", "ProtoNode", "GetNodeLink"), an.M("ipld/unixfs/hamt", "Shard", "Find"))
 		return ok
@@ -995,15 +1081,43 @@ func c16Origin(vals []ssa.Value) (existing, incoming bool) {
 			return
 		}
 		seen[v] = true
-		for _, l := range an.Deps(v, &an.DepOpts{Stop: func(w ssa.Value) bool { return isLookup(w) || isMade(w) }}) {
+		for _, l := range an.Deps(v, &an.DepOpts{Stop: func(w ssa.Value) bool {
+			lc, _ := isLocalCall(w)
+			return isLookup(w) || isMade(w) || lc != nil
+		}}) {
 			switch {
 			case isLookup(l):
 				existing = true
 			case isMade(l):
 				incoming = true
 			default:
+				// result of a helper of this package: what the helper returns there
+				if lc, idx := isLocalCall(l); lc != nil {
+					g := an.Callee(lc).Static
+					for _, rs := range an.ResultSites(g, idx) {
+						visit(rs.Val, depth+1)
+					}
+					continue
+				}
 				if par, ok := l.(*ssa.Parameter); ok && an.TypeIs(par.Type(), "github.com/ipfs/go-ipld-format", "Node") {
 					incoming = true
+				} else if ok && lift && par.Parent() != nil && par.Parent().Object() != nil && !par.Parent().Object().Exported() {
+					// parameter of an unexported helper: what its callers pass
+					// (ignored when the callers disagree: context dependent)
+					h := par.Parent()
+					var as []ssa.Value
+					for _, cs := range an.LocalCallers(fns, h) {
+						if a := an.ArgAt(cs, an.ParamIndex(h, par)); a != nil {
+							as = append(as, a)
+						}
+					}
+					if depth < 3 {
+						pe, pi := c16OriginL(fns, as, true)
+						if pe != pi {
+							existing = existing || pe
+							incoming = incoming || pi
+						}
+					}
 				}
 				if fl, b := an.LoadedField(l); fl != nil && b != nil {
 					visit(b, depth+1)
@@ -1024,19 +1138,8 @@ func (x *c16Ctx) sizeTermArgs(fns []*ssa.Function, call *ssa.Call) ([]ssa.Value,
 	if k := c16SizeKind(call); k == "block" || k == "links" {
 		return call.Call.Args[1:], true
 	}
-	g := an.Callee(call).Static
-	if g == nil || g.Pkg == nil || g.Pkg.Pkg.Path() != an.Mod+"/"+c16IO || g.Signature.Results().Len() != 1 {
+	if !c16IsSizeHelper(an.Callee(call).Static) {
 		return nil, false
-	}
-	rs := an.ResultSites(g, 0)
-	if len(rs) == 0 {
-		return nil, false
-	}
-	for _, r := range rs {
-		inner, ok := r.Val.(*ssa.Call)
-		if !ok || (c16SizeKind(inner) != "block" && c16SizeKind(inner) != "links") {
-			return nil, false
-		}
 	}
 	var out []ssa.Value
 	for _, a := range an.Args(call) {
@@ -1047,15 +1150,34 @@ func (x *c16Ctx) sizeTermArgs(fns []*ssa.Function, call *ssa.Call) ([]ssa.Value,
 	return out, len(out) > 0
 }
 
+// c16IsSizeHelper: every result of g is a size call (g only selects the size
+// function, like linkSizeFor).
+func c16IsSizeHelper(g *ssa.Function) bool {
+	if g == nil || g.Blocks == nil || g.Pkg == nil || g.Pkg.Pkg.Path() != an.Mod+"/"+c16IO || g.Signature.Results().Len() != 1 {
+		return false
+	}
+	rs := an.ResultSites(g, 0)
+	if len(rs) == 0 {
+		return false
+	}
+	for _, r := range rs {
+		inner, ok := r.Val.(*ssa.Call)
+		if !ok || (c16SizeKind(inner) != "block" && c16SizeKind(inner) != "links") {
+			return false
+		}
+	}
+	return true
+}
+
 func (x *c16Ctx) terms(fns []*ssa.Function, minTerms, minSigned int) {
 	c := x.c
 	fSC := c.P.Field(c16IO, "HAMTDirectory", "sizeChange")
 	isThr := func(v ssa.Value) bool {
 		for _, l := range an.Deps(v, &an.DepOpts{Stop: func(w ssa.Value) bool {
 			call, ok := w.(*ssa.Call)
-			return ok && an.Callee(call).Name == "getEffectiveShardingSize"
+			return ok && c16IsThresholdCall(call)
 		}}) {
-			if call, ok := l.(*ssa.Call); ok && an.Callee(call).Name == "getEffectiveShardingSize" {
+			if call, ok := l.(*ssa.Call); ok && c16IsThresholdCall(call) {
 				return true
 			}
 		}
@@ -1081,7 +1203,12 @@ func (x *c16Ctx) terms(fns []*ssa.Function, minTerms, minSigned int) {
 			if !isTerm {
 				continue
 			}
-			existing, incoming := c16Origin(args)
+			// the calls inside a size helper (linkSizeFor) are not terms of
+			// their own: the helper call is
+			if c16IsSizeHelper(f) {
+				continue
+			}
+			existing, incoming := c16Origin(fns, args)
 			if !existing && !incoming {
 				continue
 			}
@@ -1128,6 +1255,20 @@ func (x *c16Ctx) terms(fns []*ssa.Function, minTerms, minSigned int) {
 								signs = append(signs, neg)
 							}
 						}
+					case *ssa.Return:
+						// the term leaves a helper as (part of) a result: go on at
+						// the helper's call sites
+						h := r.Parent()
+						for i, res := range r.Results {
+							if res != v {
+								continue
+							}
+							for _, cs := range an.LocalCallers(fns, h) {
+								for _, rv := range an.Result(cs, i) {
+									walk(rv, neg)
+								}
+							}
+						}
 					case *ssa.Phi:
 						walk(r, neg)
 					case *ssa.Convert:
@@ -1167,13 +1308,19 @@ func (x *c16Ctx) terms(fns []*ssa.Function, minTerms, minSigned int) {
 				"the size of the "+role+" is not "+want+" the size that is compared with the sharding threshold: the post-operation size is wrong by twice that entry, so the basic/HAMT decision differs from a fresh build")
 		}
 		// MaxLinks test gets the looked-up entry
-		for _, cc := range an.Calls(f, an.M(c16IO, "BasicDirectory", "checkMaxLinksExceeded")) {
+		for _, cc := range an.AllCalls(f) {
+			// the MaxLinks test, by role: BasicDirectory method (ipld.Node, *ipld.Link) bool
+			g := an.Callee(cc).Static
 			as := an.Args(cc)
-			if len(as) != 2 {
+			if g == nil || g.Signature.Recv() == nil || !an.TypeIs(g.Signature.Recv().Type(), c16IO, "BasicDirectory") || len(as) != 2 ||
+				!an.TypeIs(as[0].Type(), "github.com/ipfs/go-ipld-format", "Node") || !an.TypeIs(as[1].Type(), "github.com/ipfs/go-ipld-format", "Link") || g.Signature.Results().Len() != 1 {
 				continue
 			}
-			ex, _ := c16Origin([]ssa.Value{as[1]})
-			_, inc := c16Origin([]ssa.Value{as[0]})
+			if b, ok := g.Signature.Results().At(0).Type().Underlying().(*types.Basic); !ok || b.Kind() != types.Bool {
+				continue
+			}
+			ex, _ := c16Origin(fns, []ssa.Value{as[1]})
+			_, inc := c16Origin(fns, []ssa.Value{as[0]})
 			c.Check(ex && inc, "O7", "R-FLOW", name, "checkMaxLinksExceeded(node-to-add,looked-up-entry)", cc.Pos(),
 				"MaxLinks test is given the node being added and the entry found under the name",
 				"checkMaxLinksExceeded is not given the entry looked up under the name (or the node being added): a replacement is counted as a new link (or a new link as a replacement), so the MaxLinks rule shards at a different count than a fresh build")
@@ -1242,5 +1389,27 @@ func (x *c16Ctx) hamtCount(fns []*ssa.Function) {
 			}
 		}
 	}
-	c.Min("O8 Swap/Take sites of HAMTDirectory", n, 2)
+	c.Min("O8 Swap/Take sites of HAMTDirectory", n, 1)
+}
+
+// c16IsThresholdCall: the call yields the effective sharding threshold — by
+// role: a parameterless int method of a directory type that falls back to the
+// package-level HAMTShardingSize.
+func c16IsThresholdCall(call ssa.CallInstruction) bool {
+	g := an.Callee(call).Static
+	if g == nil || g.Blocks == nil || g.Signature.Recv() == nil || g.Signature.Params().Len() != 0 || g.Signature.Results().Len() != 1 {
+		return false
+	}
+	if g.Pkg == nil || g.Pkg.Pkg.Path() != an.Mod+"/"+c16IO {
+		return false
+	}
+	found := false
+	an.Instrs(g, func(in ssa.Instruction) {
+		if u, ok := in.(*ssa.UnOp); ok && u.Op == token.MUL {
+			if gl, ok := u.X.(*ssa.Global); ok && gl.Name() == "HAMTShardingSize" {
+				found = true
+			}
+		}
+	})
+	return found
 }
